@@ -3,6 +3,7 @@
 // world vs other heap; frame twins).
 #include "router_gen.h"
 #include "mix_gen.h"
+#include "geom.h"
 enum { P_segment = 0, P_angle, P_crossing, P_clusterCrossing, P_fixedShared, P_portDir, P_buffer, P_nudgeDist, P_reverse };
 enum { O_nudgeAttached = 0, O_hyperMove, O_penaliseSharedEnds, O_nudgeTouching, O_unifying, O_hyperAddDel, O_nudgeCommonEnd };
 
@@ -60,7 +61,9 @@ static Json genC15(const std::string &prop, uint64_t seed, const std::string &ti
     return p;
 }
 
+static Json genC20Frame(uint64_t seed, const std::string &tier);
 static Json genC20(const std::string &prop, uint64_t seed, const std::string &tier) {
+    if (seed % 4 == 3) return genC20Frame(seed, tier);          // frame clauses: twin sessions, one execution
     Rng r(Rng::mix(seed, "plan"));
     Json p = planSkeleton(prop, "mix", seed, r, 300);
     // force real interleaving: noise runs into every yield of the subject
@@ -80,3 +83,65 @@ static Json genC20(const std::string &prop, uint64_t seed, const std::string &ti
     return p;
 }
 static GenRegistrar gm1("C15", genC15), gm2("C20", genC20);
+
+// ---------------------------------------------------------------- C20 frame clauses: twin router sessions
+// B executes A's plan in another frame (translation by multiples of 2^-10, or one of the eight symmetries of the
+// square) in the same world; translated scenes must give translated routes, symmetric scenes equal route costs.
+static Pt applyFrame(const Json &fr, Pt p, bool linearOnly) {
+    if (fr.str("kind", "") == "translate") { if (linearOnly) return p; return Pt{p.x + fr.num("dx", 0), p.y + fr.num("dy", 0)}; }
+    int k = (int)fr.i("k", 0);
+    double x = p.x, y = p.y;
+    if (k & 4) std::swap(x, y);
+    if (k & 1) x = -x;
+    if (k & 2) y = -y;
+    return Pt{x, y};
+}
+static bool frameFlips(const Json &fr) { if (fr.str("kind", "") == "translate") return false; int k = (int)fr.i("k", 0); return (((k >> 2) & 1) ^ (k & 1) ^ ((k >> 1) & 1)) != 0; }
+static Json framePoly(const Json &fr, const Json &poly) {
+    std::vector<Pt> v;
+    for (auto &q : poly.a) v.push_back(applyFrame(fr, Pt{q[0].num(), q[1].num()}, false));
+    if (frameFlips(fr)) std::reverse(v.begin(), v.end());
+    Json out = Json::arr();
+    for (auto &q : v) { Json e = Json::arr(); e.push(q.x); e.push(q.y); out.push(e); }
+    return out;
+}
+static Json frameSession(const Json &a, const Json &fr, int twinOf) {
+    Json b = a;
+    Json cfg = a["cfg"]; Json tw = Json::obj(); tw.set("of", twinOf); tw.set("frame", fr); cfg.set("twin", tw); b.set("cfg", cfg);
+    Json ops = Json::arr();
+    for (auto &op : a["ops"].a) {
+        Json o = op;
+        std::string k = op.str("op", "");
+        if (op.has("poly")) o.set("poly", framePoly(fr, op["poly"]));
+        if (k == "moveShape") { Pt d = applyFrame(fr, Pt{op.num("dx", 0), op.num("dy", 0)}, true); o.set("dx", d.x); o.set("dy", d.y); }
+        for (const char *ek : {"src", "dst", "end"}) if (op.has(ek) && op[ek].has("pt")) { Json e = op[ek]; Pt q = applyFrame(fr, Pt{e["pt"][0].num(), e["pt"][1].num()}, false); Json pj = Json::arr(); pj.push(q.x); pj.push(q.y); e.set("pt", pj); o.set(ek, e); }
+        if (op.has("checkpoints")) { Json cp = Json::arr(); for (auto &q : op["checkpoints"].a) { Pt t = applyFrame(fr, Pt{q[0].num(), q[1].num()}, false); Json pj = Json::arr(); pj.push(t.x); pj.push(t.y); cp.push(pj); } o.set("checkpoints", cp); }
+        ops.push(o);
+    }
+    b.set("ops", ops);
+    return b;
+}
+static Json genC20Frame(uint64_t seed, const std::string &tier) {
+    Rng r(Rng::mix(seed, "plan-frame"));
+    Json p = planSkeleton("C20", "mix", seed, r, 300);
+    RouterGenCfg g;
+    g.ortho = r.chance(0.5);
+    g.polygons = !g.ortho && r.chance(0.6);
+    g.costOracles = false;
+    g.params[P_segment] = g.ortho ? r.pick(std::vector<double>{10, 50}) : r.pick(std::vector<double>{0, 0, 10, 50});
+    if (g.ortho) { g.params[P_nudgeDist] = r.pick(std::vector<double>{0, 4}); g.options[O_nudgeAttached] = false; }
+    g.selective = true; g.invis = r.chance(0.8); g.lees = r.chance(0.7);
+    g.styleExtra = "frame-twin";
+    if (tier == "thorough") { g.maxShapes = 10; g.maxConns = 8; }
+    Json a = genRouterSession(r, g);
+    { Json cfg = a["cfg"]; Json tw = Json::obj(); tw.set("of", -1); cfg.set("twin", tw); a.set("cfg", cfg); }
+    Json fr = Json::obj();
+    if (r.chance(0.45)) { fr.set("kind", "translate"); fr.set("dx", (double)r.range(-40000, 40000) / 1024.0); fr.set("dy", (double)r.range(-40000, 40000) / 1024.0); }
+    else { fr.set("kind", "sym"); fr.set("k", (long)r.range(1, 7)); }
+    Json ss = Json::arr();
+    ss.push(a);
+    ss.push(frameSession(a, fr, 0));
+    if (r.chance(0.4)) ss.push(genSolverSession(r, "quick"));
+    p.set("sessions", ss);
+    return p;
+}
